@@ -7,6 +7,7 @@ mod c01;
 mod c02;
 mod c04;
 mod c06;
+mod c08;
 mod c09;
 mod c10;
 mod semcheck;
@@ -22,6 +23,7 @@ fn table(prop: &str) -> Option<(RunFn, ReplayFn)> {
     "C02" => (c02::run, c02::replay),
     "C04" => (c04::run, c04::replay),
     "C06" => (c06::run, c06::replay),
+    "C08" => (c08::run, c08::replay),
     "C09" => (c09::run, c09::replay),
     "C10" => (c10::run, c10::replay),
     "C11" => (c11::run, c11::replay),
